@@ -195,6 +195,20 @@ def run_shard(shard):
             if meta["cond_shape"] is not None:
                 cs = rng.standard_normal((len(xs), *meta["cond_shape"])).astype(fdt)
                 cs[::7] = 0.0
+            # inner leaves of flows / compositions: pull their branch values back through the library's own maps
+            # (log_prob applies the bijection's inverse first)
+            if mode[0] != "init" and mode[1] <= 1.0 and not numeric_lp and (it["kind"] == "flow" or it.get("spec", {}).get("op") in ("Chain", "Scan", "Invert")):
+                from fjmon import pullback as PB
+
+                pp, pc, st = PB.pulled_back_points(d.bijection, "inv", meta["cond_shape"], rng, fdt, max_steps=2, max_points=8)
+                for k_, v_ in st.items():
+                    rec.count(k_, v_)
+                slots = np.where(xcrit)[0][::-1][: len(pp)]
+                for j_, sl in enumerate(slots):
+                    xs[sl] = pp[j_]
+                    xhits[sl] = {"pulled_back_inner_critical"}
+                    if cs is not None and pc is not None and pc[j_] is not None:
+                        cs[sl] = pc[j_]
             if mode[0] == "init" and not numeric_lp:
                 # hit measurement: which exact branch values do the *inner* leaves see for the critical-directed inputs?
                 MON["on"] = True
